@@ -265,7 +265,7 @@ def project(pid, op, group, canon, ctx):
             return status(res) + " n=%d" % len(created_handles(op, res))
         if cmd == "snapshot":
             return c(res)
-        if cmd in QOPS and ctx.get("batchq", False):
+        if cmd in QOPS and cmd != "q" and op.split()[1] in ctx.get("bq", ()):
             return c(res)
         return None
     if pid == "C09":
@@ -358,6 +358,10 @@ def compare(pid, ops, impl_groups, model_groups):
             ctx["full_listener"] = op.split()[1:] == ["63", "-"]
         elif cmd in ("nolst", "disp"):
             ctx["full_listener"] = False
+        if (cmd in BATCH and cmd.endswith("q")) or (cmd == "bld" and " batchq " in op):
+            m = re.match(r"= ok q(\d+)", gm[0])
+            if m:
+                ctx.setdefault("bq", set()).add(m.group(1))
         ci.issue(created_handles(op, gi[0]))
         cm.issue(created_handles(op, gm[0]))
         pi = project(pid, op, gi, ci, ctx)
